@@ -45,11 +45,13 @@ pub struct MergeTable {
     pub nbase: usize,
     /// (left symbol, right symbol, result symbol), rank = index
     pub merges: Vec<(usize, usize, usize)>,
+    /// some merge names a symbol that only a LATER (higher-rank) merge produces
+    pub forward_refs: bool,
 }
 
 impl MergeTable {
     pub fn new(base: &[&str]) -> MergeTable {
-        MergeTable { syms: base.iter().map(|s| s.to_string()).collect(), nbase: base.len(), merges: Vec::new() }
+        MergeTable { syms: base.iter().map(|s| s.to_string()).collect(), nbase: base.len(), merges: Vec::new(), forward_refs: false }
     }
 
     pub fn has_pair(&self, x: usize, y: usize) -> bool {
@@ -192,6 +194,30 @@ pub fn all_tables(base: &[&str], kmax: usize) -> Vec<MergeTable> {
         }
         out.extend(next.iter().cloned());
         frontier = next;
+    }
+    out
+}
+
+/// Re-orderings of the merge lists of `tables` in which some merge refers to a symbol that
+/// only a later merge produces (such lists are not generated by `all_tables`, but a
+/// merges file can contain them). Tables with 2..=3 merges; every such permutation once.
+pub fn forward_reference_tables(tables: &[MergeTable]) -> Vec<MergeTable> {
+    let mut seen = std::collections::HashSet::new();
+    let mut out = Vec::new();
+    for t in tables {
+        let k = t.merges.len();
+        if !(2..=3).contains(&k) {
+            continue;
+        }
+        for perm in crate::util::permutations(k) {
+            let merges: Vec<(usize, usize, usize)> = perm.iter().map(|&i| t.merges[i]).collect();
+            let forward = merges.iter().enumerate().any(|(i, &(x, y, _))| {
+                [x, y].iter().any(|&s| s >= t.nbase && !merges[..i].iter().any(|m| m.2 == s))
+            });
+            if forward && seen.insert((t.syms.clone(), merges.clone())) {
+                out.push(MergeTable { syms: t.syms.clone(), nbase: t.nbase, merges, forward_refs: true });
+            }
+        }
     }
     out
 }
